@@ -13,15 +13,20 @@
 #include "stream.h"
 #include "verif.h"
 
+#ifndef NBLK
 #define NBLK 2
-#define NEV 10
+#endif
+#define NEV (NBLK * 4 + (NBLK > 1 ? 2 : 0))
+#ifndef HS
 #define HS 4
+#endif
 
 struct verif_in {
 	block_off_t blockmax;
 	unsigned st[NBLK];
 	block_off_t ppos[NBLK];
 	unsigned char hash[NBLK * HS];
+	int clear_past_hash, force_nocopy, force_realloc;
 };
 VERIF_DECLARE_IN
 
@@ -46,8 +51,7 @@ static int w_write(const void *data, unsigned size, STREAM *s)
 	(void)s;
 	VERIF_ASSERT(g_n < NEV && size == HS, "a hash is written with the configured hash size");
 	g_kind[g_n] = 3;
-	for (k = 0; k < HS; ++k)
-		g_raw[g_n * HS + k] = ((const unsigned char *)data)[k];
+	memcpy(&g_raw[g_n * HS], data, HS);
 	++g_n;
 	return 0;
 }
@@ -60,8 +64,7 @@ static int r_read(STREAM *s, void *data, unsigned size)
 	unsigned k;
 	(void)s;
 	VERIF_ASSERT(g_r < g_n && g_kind[g_r] == 3 && size == HS, "the reader asks for a hash where the writer put one");
-	for (k = 0; k < HS; ++k)
-		((unsigned char *)data)[k] = g_raw[g_r * HS + k];
+	memcpy(data, &g_raw[g_r * HS], HS);
 	++g_r;
 	return 0;
 }
@@ -120,18 +123,24 @@ void h_blockruns(void)
 	unsigned k, e, covered = 0;
 	VERIF_INPUTS();
 	VERIF_ASSUME(IN.blockmax >= 1 && IN.blockmax <= NBLK);
+#if NBLK == 1
+	VERIF_ASSUME(IN.blockmax == 1);
+	WF.blockmax = RF.blockmax = 1; /* concrete: keeps the unwinding of the run loops small in the full-hash variant */
+#else
 	WF.blockmax = RF.blockmax = IN.blockmax;
+#endif
 	WF.sub = RF.sub = "f";
 	for (i = 0; i < NBLK; ++i) {
 		VERIF_ASSUME(IN.st[i] == BLOCK_STATE_BLK || IN.st[i] == BLOCK_STATE_CHG || IN.st[i] == BLOCK_STATE_REP);
 		VERIF_ASSUME(IN.ppos[i] < 0x7fffffff);
 		block_state_set((struct snapraid_block *)(WV + i * 64), IN.st[i]);
-		for (k = 0; k < HS; ++k)
-			((struct snapraid_block *)(WV + i * 64))->hash[k] = IN.hash[i * HS + k];
+		memcpy(((struct snapraid_block *)(WV + i * 64))->hash, &IN.hash[i * HS], HS);
 	}
-	ST.clear_past_hash = 0;
-	ST.opt.force_nocopy = 0;
-	ST.opt.force_realloc = 0;
+	/* load-time options of sync: clear_past_hash (every sync: past hashes cannot be trusted after an interrupted sync),
+	 * --force-nocopy (provisional hashes are dropped), --force-realloc (everything gets reallocated) */
+	ST.clear_past_hash = IN.clear_past_hash != 0;
+	ST.opt.force_nocopy = IN.force_nocopy != 0;
+	ST.opt.force_realloc = IN.force_realloc != 0;
 	g_n = g_r = 0;
 	g_alloc_calls = 0;
 
@@ -158,10 +167,24 @@ void h_blockruns(void)
 	for (i = 0; i < NBLK; ++i)
 		if (i < IN.blockmax) {
 			struct snapraid_block *b = (struct snapraid_block *)(RV + i * 64);
-			VERIF_ASSERT(block_state_get(b) == IN.st[i], "decode(encode) keeps the state of every block");
+			unsigned est = IN.st[i];
+			int invalid = 0;
+			/* what the loader is documented to do with what it just read */
+			if (IN.clear_past_hash && est == BLOCK_STATE_CHG)
+				invalid = 1;                       /* a past hash - ANY past hash, the ZERO marker included - is not trusted when sync starts */
+			if (IN.clear_past_hash && IN.force_nocopy && est == BLOCK_STATE_REP) {
+				invalid = 1;                       /* --force-nocopy drops provisional hashes */
+				est = BLOCK_STATE_CHG;
+			}
+			if (IN.force_realloc && est == BLOCK_STATE_BLK)
+				est = BLOCK_STATE_REP;             /* --force-realloc: the parity of every synced block is no longer valid */
+			VERIF_ASSERT(block_state_get(b) == est, "a reloaded block has the state that was saved (after the documented load-time conversions)");
 			VERIF_ASSERT(g_alloc_pos[i] == IN.ppos[i], "decode(encode) keeps the parity position of every block");
-			for (k = 0; k < HS; ++k)
-				VERIF_ASSERT(b->hash[k] == IN.hash[i * HS + k], "decode(encode) keeps the hash of every block");
+			{
+				unsigned char expect[HS];
+				if (invalid) memset(expect, 0, HS); else memcpy(expect, &IN.hash[i * HS], HS);
+				VERIF_ASSERT(memcmp(b->hash, expect, HS) == 0, "a reloaded block has the hash that was saved - except that when sync loads the state EVERY past hash of a pending block becomes the INVALID marker");
+			}
 		}
 	VERIF_CANARY();
 }
